@@ -600,6 +600,14 @@ impl ElementRaw {
                         }
                     }
                     ElementContent::CharacterData(cdata) => {
+                        // a value which does not exist in the target version (enum item) can't be copied
+                        if let Some(cdataspec) = self.elemtype.chardata_spec() {
+                            if !cdata.check_version_compatibility(cdataspec, target_version).0 {
+                                return Err(AutosarDataError::VersionIncompatibleData {
+                                    version: target_version,
+                                });
+                            }
+                        }
                         copy.content.push(ElementContent::CharacterData(cdata.clone()));
                     }
                 }
